@@ -170,6 +170,10 @@ struct Local {
     samples: Vec<(Vec<u32>, Value)>,
 }
 
+thread_local! {
+    pub static LAST_PANIC_LOCATION: std::cell::RefCell<String> = const { std::cell::RefCell::new(String::new()) };
+}
+
 pub enum Caught {
     Out(RunOut),
     Panic(String),
@@ -193,9 +197,9 @@ pub fn run_script<F: Fn(&RunCtx) -> RunOut>(
             if let Some(m) = p.downcast_ref::<Machinery>() {
                 Caught::Machinery(m.0.clone())
             } else if let Some(s) = p.downcast_ref::<String>() {
-                Caught::Panic(s.clone())
+                Caught::Panic(format!("{s} at {}", short_loc()))
             } else if let Some(s) = p.downcast_ref::<&str>() {
-                Caught::Panic(s.to_string())
+                Caught::Panic(format!("{s} at {}", short_loc()))
             } else {
                 Caught::Panic("non-string panic payload".into())
             }
@@ -449,6 +453,20 @@ pub fn explore<F: Fn(&RunCtx) -> RunOut + Sync>(cfg: &Cfg, f: F) -> Stats {
     st.violations.sort_by(|a, b| a.1.len().cmp(&b.1.len()));
     st.wall_s = t0.elapsed().as_secs_f64();
     st
+}
+
+fn short_loc() -> String {
+    LAST_PANIC_LOCATION.with(|c| {
+        let l = c.borrow();
+        // keep the path relative to the repository / crate
+        match l.find("/src/") {
+            Some(i) => {
+                let start = l[..i].rfind('/').map(|j| j + 1).unwrap_or(0);
+                l[start..].to_string()
+            }
+            None => l.clone(),
+        }
+    })
 }
 
 pub fn first_line(s: &str) -> String {
